@@ -2,8 +2,10 @@
 """writes seeded/README.md from seeded/*/meta.json"""
 import json, glob, os
 rows = []
+controls = []
 for m in sorted(glob.glob("/verif/seeded/*/meta.json")):
-    d = json.load(open(m)); d["id"] = os.path.basename(os.path.dirname(m)); rows.append(d)
+    d = json.load(open(m)); d["id"] = os.path.basename(os.path.dirname(m))
+    (controls if "kind" in d else rows).append(d)
 with open("/verif/seeded/README.md", "w") as f:
     f.write("# Seeded changes\n\nEach directory holds a change to mjwybrow/adaptagrams written by an independent sub-agent that saw only the property text and its own scratch worktree "
             "(nothing from /verif): `patch.diff`, the agent's demonstration, and `meta.json`. None is committed to /repo. "
@@ -11,4 +13,7 @@ with open("/verif/seeded/README.md", "w") as f:
     f.write("| id | breaks | needs to manifest | confirmed (demo fails with / passes without / suite passes) | caught by | first caught |\n|---|---|---|---|---|---|\n")
     for d in rows:
         f.write("| %s | %s | %s | %s | %s | %s |\n" % (d["id"], d.get("property", ""), d.get("needs", "").replace("|", "/"), d.get("confirmed", ""), d.get("caught_by", ""), d.get("caught_note", "").replace("|", "/")))
-print("wrote seeded/README.md with", len(rows), "entries")
+with open("/verif/seeded/README.md", "a") as f:
+    f.write("\n## Behaviour-preserving controls\n\nRefactorings that must not raise any alarm (written by sub-agents told to change nothing observable).\n\n| id | files | outcome |\n|---|---|---|\n")
+    for d in controls: f.write("| %s | %s | %s |\n" % (d["id"], d.get("files", ""), d.get("result", "")))
+print("wrote seeded/README.md with", len(rows), "entries and", len(controls), "controls")
